@@ -989,7 +989,8 @@ def oracle_C04(run):
                 n = len(f['payload'])
                 st = sb['streams'].get(f['sid'])
                 if n <= sb['max_in'] and st and st[0] in ('OPEN', 'HALF_CLOSED_LOCAL') and st[6] and not (f['flags'] & 8):
-                    fits = n <= sb['in_win'] and n <= st[3]
+                    # an empty frame overruns nothing, also below zero (RFC 7540 6.9.1 / 6.9.2; D43)
+                    fits = n == 0 or (n <= sb['in_win'] and n <= st[3])
                     fc_err = (r[0] == 'exc' and r[1] == 'FlowControlError')
                     if fits and fc_err:
                         out.append(fail('fitting-data-rejected-for-flow-control', i, n=n, conn=sb['in_win'], stream=st[3]))
@@ -2221,8 +2222,10 @@ def oracle_C25(run):
     return out
 
 
+from oracle_c01 import oracle_C01 as oracle_C01_v2  # noqa: E402
+
 ORACLES = {
-    'C01': oracle_C01,
+    'C01': oracle_C01_v2,
     'C02': oracle_C02, 'C03': oracle_C03, 'C04': oracle_C04, 'C05': oracle_C05, 'C07': oracle_C07, 'C08': oracle_C08,
     'C09': oracle_C09, 'C10': oracle_C10, 'C11': oracle_C11, 'C12': oracle_C12, 'C14': oracle_C14, 'C15': oracle_C15, 'C16': oracle_C16, 'C13': oracle_C13, 'C17': oracle_C17, 'C18': oracle_C18,
     'C19': oracle_C19, 'C21': oracle_C21, 'C22': oracle_C22, 'C24': oracle_C24, 'C25': oracle_C25, 'C26': oracle_C26, 'C27': oracle_C27, 'C29': oracle_C29,
